@@ -24,6 +24,8 @@ func extraChild(name string, r *emit.Rand, dir string, rounds int) {
 		driveCerts(r, dir, rounds)
 	case "syncmap":
 		driveSyncMap(r, rounds)
+	case "slow-origin":
+		driveSlowOrigin(dir)
 	default:
 		panic("unknown driver " + name)
 	}
@@ -156,6 +158,38 @@ func driveSyncMap(r *emit.Rand, rounds int) {
 				}
 			}
 		}()
+	}
+	wg.Wait()
+}
+
+// driveSlowOrigin (thorough tier): an origin that takes 20 s to answer — slower than any plausible internal time
+// limit — asked by four clients at once for one resource and by one client for another; everybody is answered.
+func driveSlowOrigin(dir string) {
+	e2elib.Quiet()
+	env, err := e2elib.Start(e2elib.Options{Backend: "memory", Dir: dir, Shards: 2})
+	if err != nil {
+		panic(err)
+	}
+	defer env.Close()
+	env.Origin.SetHandler(func(req e2elib.OriginRequest, n int) e2elib.Answer {
+		a := e2elib.NewAnswer(200, []byte("slow answer for "+req.Target), "Cache-Control: max-age=60", `ETag: "s"`)
+		a.Delay = 20 * time.Second
+		return a
+	})
+	var wg sync.WaitGroup
+	for i := 0; i < 5; i++ {
+		wg.Add(1)
+		go func(i int) {
+			defer wg.Done()
+			path := "/slow/shared"
+			if i == 4 {
+				path = "/slow/alone"
+			}
+			resp, err := env.DoPlain(env.PlainRequest("GET", path, []string{"Connection: keep-alive", "X-Client: " + fmt.Sprint(i)}, nil), "GET", 60*time.Second)
+			if err != nil || resp.Status != 200 || string(resp.Body) != "slow answer for "+path {
+				panic(fmt.Sprintf("slow origin (20 s to answer): client %d of %s was not given the origin's answer: %v", i, path, err))
+			}
+		}(i)
 	}
 	wg.Wait()
 }
